@@ -837,7 +837,7 @@ Section Handlers.
   Definition process_ike_sa_init_response (m : pmsg body) : H (option (Z * list payload)) :=
     check_in_states [ST_INIT_REQ_SENT] ;;;
     match get_notifies m N_INVALID_KE_PAYLOAD false with
-    | _ :: _ as nots =>
+    | (_ :: _) as nots =>
         modc (fun c => c <| my_msg_id_reset := true |>) ;;;
         r <- handle_invalid_ke nots ;;
         c <- getc ;;
